@@ -51,12 +51,17 @@ def gen_cases(ctx):
                     rows.append([dyadic(rng, bits, pb) for _ in range(n + 1)])
             cases.append({"n": n, "rows": rows, "a": a, "b": b, "tol": Fraction(0), "stream": "exact"})
         # --- bound stream: arbitrary doubles, a, b in [-1,2]
-        for rep in range(1 if ctx.quick() else 4):
+        for rep in range((3 if n <= 6 else 1) if ctx.quick() else 6):
             dim = rng.randint(1, 3)
             # few-bit inputs: the exact model stays small, the binary64 computation rounds from round 5 on
             rows = [[dyadic(rng, 14, 10) for _ in range(n + 1)] for _ in range(dim)]
-            a = Fraction(rng.randint(-256, 512), 256)
-            b = Fraction(rng.randint(-256, 512), 256)
+            if n <= 6:
+                # genuinely arbitrary doubles (53 significant bits; their product is not representable in any shorter format)
+                a = Fraction(rng.uniform(-1.0, 2.0))
+                b = Fraction(rng.uniform(-1.0, 2.0)) if rng.random() < 0.8 else a
+            else:
+                a = Fraction(rng.randint(-256, 512), 256)
+                b = Fraction(rng.randint(-256, 512), 256)
             g = max(abs(1 - a) + abs(a), abs(1 - b) + abs(b), 1)
             vmax = max(abs(x) for r in rows for x in r)
             # consequences of the proved bounds (majorant <= vmax g^n): specialize (3n roundings), generic subdivision (4n+2)
